@@ -495,3 +495,218 @@ M('C08', 'refactor-retention-locals', AUTH, """    ensure!(
 MUTANTS.append(dict(MUTANTS[-1], prop='C01', id='refactor-retention-locals-c01'))
 M('C01', 'extra-signer-count-limit', AUTH, '    let signers_set = proof.weighted_signers();\n', '    ensure!(proof.signers.len() <= 8, ContractError::InvalidSigners);\n    let signers_set = proof.weighted_signers();\n', 'C01.R7')
 M('C01', 'reject-unsigned-entries', AUTH, '        if let ProofSignature::Signed(signature) = signature {', '        if signature == ProofSignature::Unsigned {\n            return false;\n        }\n        if let ProofSignature::Signed(signature) = signature {', 'C01.R7')
+
+# ---------------- behaviour-preserving refactors, batch 2 ----------------
+M('C01', 'refactor2-digest-append', AUTH, """    let mut msg: Bytes = domain_separator.into();
+    msg.extend_from_array(&signers_hash.to_array());
+    msg.extend_from_array(&data_hash.to_array());
+""", """    let mut msg = Bytes::new(env);
+    msg.append(&domain_separator.into());
+    msg.append(&signers_hash.into());
+    msg.append(&data_hash.clone().into());
+""", equiv=True)
+MUTANTS.append(dict(MUTANTS[-1], prop='C03', id='refactor2-digest-append-c03'))
+M('C01', 'refactor2-inline-epoch-lookup', AUTH, """    let signers_epoch = epoch_by_signers_hash(env, signers_hash.clone())?;
+""", """    let signers_epoch: u64 = env
+        .storage()
+        .persistent()
+        .get(&DataKey::EpochBySignersHash(signers_hash.clone()))
+        .ok_or(ContractError::InvalidSignersHash)?;
+""", equiv=True)
+MUTANTS.append(dict(MUTANTS[-1], prop='C08', id='refactor2-inline-epoch-lookup-c08'))
+M('C04', 'refactor2-params-check-order', ITS, """        ensure!(
+            message_type == EncodedMessageType::ReceiveFromHub,
+            ContractError::InvalidMessageType
+        );
+
+        ensure!(
+            source_chain == Self::its_hub_chain_name(env),
+            ContractError::InvalidHubChain
+        );
+""", """        ensure!(
+            source_chain == Self::its_hub_chain_name(env),
+            ContractError::InvalidHubChain
+        );
+
+        ensure!(
+            message_type == EncodedMessageType::ReceiveFromHub,
+            ContractError::InvalidMessageType
+        );
+""", equiv=True)
+M('C05', 'refactor2-message-before-event', ITS, """        InterchainTransferSentEvent {
+            token_id: token_id.clone(),
+            source_address: caller.clone(),
+            destination_chain: destination_chain.clone(),
+            destination_address: destination_address.clone(),
+            amount,
+            data: data.clone(),
+        }
+        .emit(env);
+
+        let message = Message::InterchainTransfer(InterchainTransfer {
+            token_id,
+            source_address: caller.clone().to_xdr(env),
+            destination_address,
+            amount,
+            data,
+        });
+""", """        let message = Message::InterchainTransfer(InterchainTransfer {
+            token_id: token_id.clone(),
+            source_address: caller.clone().to_xdr(env),
+            destination_address: destination_address.clone(),
+            amount,
+            data: data.clone(),
+        });
+
+        InterchainTransferSentEvent {
+            token_id,
+            source_address: caller.clone(),
+            destination_chain: destination_chain.clone(),
+            destination_address,
+            amount,
+            data,
+        }
+        .emit(env);
+""", equiv=True)
+M('C14', 'refactor2-collect-if-return', GAS, """        ensure!(token.amount > 0, ContractError::InvalidAmount);
+
+        let token_client = token::Client::new(&env, &token.address);
+""", """        if token.amount <= 0 {
+            return Err(ContractError::InvalidAmount);
+        }
+
+        let token_client = token::Client::new(&env, &token.address);
+""", equiv=True)
+M('C17', 'refactor2-execute-uses-is_operator', OPS, """        let key = DataKey::Operators(operator);
+
+        ensure!(
+            env.storage().instance().has(&key),
+            ContractError::NotAnOperator
+        );
+
+        let res: Val""", """        ensure!(
+            Self::is_operator(env.clone(), operator),
+            ContractError::NotAnOperator
+        );
+
+        let res: Val""", equiv=True)
+MUTANTS.append(dict(MUTANTS[-1], prop='C07', id='refactor2-execute-uses-is_operator-c07'))
+M('C15', 'refactor2-migrate-event-before-close', UPI, """    custom_migration();
+    complete_migration(env);
+
+    UpgradedEvent {
+        version: T::version(env),
+    }
+    .emit(env);
+""", """    custom_migration();
+
+    UpgradedEvent {
+        version: T::version(env),
+    }
+    .emit(env);
+    complete_migration(env);
+""", equiv=True)
+M('C07', 'refactor2-mint_from-member-before-auth', TOK, """        minter.require_auth();
+
+        ensure!(
+            Self::is_minter(env, minter.clone()),
+            ContractError::NotMinter
+        );
+""", """        ensure!(
+            Self::is_minter(env, minter.clone()),
+            ContractError::NotMinter
+        );
+
+        minter.require_auth();
+""", equiv=True)
+MUTANTS.append(dict(MUTANTS[-1], prop='C12', id='refactor2-mint_from-member-before-auth-c12'))
+M('C02', 'refactor2-validate-early-false', GW, """        if message_approval == Self::message_approval_hash(&env, message.clone()) {
+            env.storage().persistent().set(
+                &DataKey::MessageApproval(key),
+                &MessageApprovalValue::Executed,
+            );
+
+            event::execute_message(&env, message);
+
+            return true;
+        }
+
+        false
+    }""", """        if message_approval != Self::message_approval_hash(&env, message.clone()) {
+            return false;
+        }
+
+        env.storage().persistent().set(
+            &DataKey::MessageApproval(key),
+            &MessageApprovalValue::Executed,
+        );
+
+        event::execute_message(&env, message);
+
+        true
+    }""", equiv=True)
+MUTANTS.append(dict(MUTANTS[-1], prop='C16', id='refactor2-validate-early-false-c16'))
+M('C18', 'refactor2-metadata-map-err', ITS, """        ensure!(
+            validate_token_metadata(&token_metadata).is_ok(),
+            ContractError::InvalidTokenMetaData
+        );
+
+        let message = Message::DeployInterchainToken""", """        validate_token_metadata(&token_metadata).map_err(|_| ContractError::InvalidTokenMetaData)?;
+
+        let message = Message::DeployInterchainToken""", equiv=True)
+M('C03', 'refactor2-duplicate-check-first', AUTH, """    let new_epoch: u64 = epoch(env) + 1;
+
+    env.storage().instance().set(&DataKey::Epoch, &new_epoch);
+
+    env.storage()
+        .persistent()
+        .set(&DataKey::SignersHashByEpoch(new_epoch), &new_signers_hash);
+
+    ensure!(
+        epoch_by_signers_hash(env, new_signers_hash.clone()).is_err(),
+        ContractError::DuplicateSigners
+    );
+""", """    ensure!(
+        epoch_by_signers_hash(env, new_signers_hash.clone()).is_err(),
+        ContractError::DuplicateSigners
+    );
+
+    let new_epoch: u64 = epoch(env) + 1;
+
+    env.storage().instance().set(&DataKey::Epoch, &new_epoch);
+
+    env.storage()
+        .persistent()
+        .set(&DataKey::SignersHashByEpoch(new_epoch), &new_signers_hash);
+""", equiv=True)
+MUTANTS.append(dict(MUTANTS[-1], prop='C08', id='refactor2-duplicate-check-first-c08'))
+M('C04', 'refactor2-execute-if-let-validate', ITS, """        Self::validate_message(&env, &source_chain, &message_id, &source_address, &payload)
+            .unwrap_or_else(|err| panic_with_error!(env, err));
+
+        Self::execute_message""", """        let validated = Self::validate_message(&env, &source_chain, &message_id, &source_address, &payload);
+        if let Err(err) = validated {
+            panic_with_error!(env, err);
+        }
+
+        Self::execute_message""", equiv=True)
+M('C12', 'refactor2-spend-balance-let-new', TOK, """        assert_with_error!(env, balance >= amount, ContractError::InsufficientBalance);
+
+        Self::write_balance(env, addr, balance - amount);""", """        assert_with_error!(env, balance >= amount, ContractError::InsufficientBalance);
+        let remaining = balance - amount;
+
+        Self::write_balance(env, addr, remaining);""", equiv=True)
+M('C09', 'refactor2-clock-locals-order', AUTH, """    let last_rotation_timestamp: u64 = env
+        .storage()
+        .instance()
+        .get(&DataKey::LastRotationTimestamp)
+        .unwrap_or(0);
+
+    let current_timestamp = env.ledger().timestamp();
+""", """    let current_timestamp = env.ledger().timestamp();
+
+    let last_rotation_timestamp: u64 = env
+        .storage()
+        .instance()
+        .get(&DataKey::LastRotationTimestamp)
+        .unwrap_or_default();
+""", equiv=True)
